@@ -64,6 +64,14 @@ type Manager struct {
 	handshaker *Handshaker
 	logger     *slog.Logger
 
+	// lifecycleMu serializes the registration of a connection with the
+	// teardown handling (bookkeeping + disconnect callback) of another one.
+	// Without it a peer could re-register between the moment its old
+	// connection is removed from the map and the moment the disconnect
+	// callback cleans up by peer ID, and the callback would wipe the routes
+	// and relays of the new connection. Always acquired before mu.
+	lifecycleMu sync.Mutex
+
 	mu          sync.RWMutex
 	peers       map[identity.AgentID]*Connection
 	peerInfos   map[string]*PeerInfo // Address -> PeerInfo
@@ -184,7 +192,9 @@ func (m *Manager) Accept(ctx context.Context, peerConn transport.PeerConn) (*Con
 
 // registerConnection adds a connection to the manager.
 func (m *Manager) registerConnection(conn *Connection) {
+	m.lifecycleMu.Lock()
 	m.mu.Lock()
+	m.lifecycleMu.Unlock()
 	// Reject new registrations after the manager has been canceled (Close
 	// runs cancel() then waits on wg). Calling wg.Add concurrently with
 	// wg.Wait when the counter goes 0 -> positive races and risks panicking;
@@ -222,6 +232,9 @@ func (m *Manager) registerConnection(conn *Connection) {
 
 // handleDisconnect is called when a connection is closed.
 func (m *Manager) handleDisconnect(conn *Connection, err error) {
+	m.lifecycleMu.Lock()
+	defer m.lifecycleMu.Unlock()
+
 	m.mu.Lock()
 	// Remove from peers map if this is still the active connection
 	existing, ok := m.peers[conn.RemoteID]
